@@ -25,7 +25,7 @@ def kernel_jobs(tier):
         ar = lut_arity(name)
         if ar == 1: Ks, caps = wave.K_combos(1, 3), (4, 16)
         elif ar == 2: Ks, caps = wave.K_combos(2, 2 if tier == 'quick' else 3), (4, 16)
-        elif ar == 3: Ks, caps = (wave.K_combos(3, 1) if tier == 'quick' else wave.K_combos(3, 2)), (8,)
+        elif ar == 3: Ks, caps = (wave.K_combos(3, 1) if tier == 'quick' else wave.K_combos(3, 2, total=4)), (8,)
         else: Ks, caps = (wave.K_combos(4, 1, exact=True) if tier == 'quick' else wave.K_combos(4, 1)), (8,)
         for K in Ks:
             for inits in itertools.product((0, 1), repeat=ar):
@@ -50,7 +50,7 @@ def run(tier, seed):
         'obligations': int(rep.counts['obligations']), 'discharged': int(rep.counts['discharged']), 'kernel_jobs': len(J), 'e2e_paths': int(rep.counts['e2e_paths']),
         'explanation': 'states = completed symbolic paths (product runs count once); per path z3 decides window membership / exact shift / exact scale / strict monotonicity for all times and delays on that path',
         'functions_encoded': common.fn_sha(wave_sim._wave_eval, WaveSim.c_prop, wave_sim.wave_capture_cpu),
-        'bounds': {'K per input': {'arity1': 3, 'arity2': 2 if tier == 'quick' else 3, 'arity3': 1 if tier == 'quick' else 2, 'arity4': 1}, 'caps': [4, 8, 16], 'scale factors': [2, 0.5], 'delta': '[-500,500]'},
+        'bounds': {'K per input': {'arity1': 3, 'arity2': 2 if tier == 'quick' else 3, 'arity3': 1 if tier == 'quick' else '2 (<= 4 overall)', 'arity4': 1}, 'caps': [4, 8, 16], 'scale factors': [2, 0.5], 'delta': '[-500,500]'},
         'exhaustive': False,
         'summary': f'{len(J)} kernel jobs, {rep.counts["paths"]} paths, {rep.counts["obligations"]} obligations, {rep.counts["discharged"]} discharged',
     }
